@@ -415,3 +415,20 @@ _extend('C05',
         'which is established on concrete histories only (PARTIAL: the general statement needs the composition of the C03 log theorem with the '
         'pool loader\'s growth of outputs along a run; a SameHandler run with other outputs than its handler\'s - impossible in ELFI - is a '
         'computed counterexample that any general statement must exclude).')
+_extend('C07',
+        ' MODEL_OK (C07_ok_split, C07_model_sched_ok, C07_model_ok, C07_agree_ok, C07_agree_sched_ok, C07_enough_accepted_full): the populations of the '
+        'model\'s own run pass the scheduling/population part of the decidable predicate ok whenever every round filled its n_samples rows (which '
+        'follows from n_samples accepted draws in the round), the table is exactly the consumed batches and there is at least one round; hence an '
+        'implementation answer that agrees with the model has it (the numeric weight/covariance clauses stay as the separate hypothesis num_ok); '
+        'each side condition is shown necessary by a computed counterexample.')
+_extend('C08',
+        ' MODEL_OK (C08_model_ok, C08_agree_implies_ok, C08_model_ok_call, C08_agree_implies_ok_call, C08_agree_implies_ok_history, '
+        'C08_model_ok_gradient, C08_model_row_ok): wherever the modelled evaluation succeeds, its own pdf / logpdf answer passes ok and ok_call for every '
+        'request shape, so agreement with the model implies the property predicate at single-point, call and history level; the model\'s own '
+        'finite-difference rows pass the gradient predicate where no central difference is nan (a zero stepsize on a finite stencil is the computed '
+        'counterexample: 0/0, cleaned to 0, is refused by the predicate).')
+_extend('C14',
+        ' SCRIPT LEVEL (C14_model_steps_agree, C14_model_steps_ok, C14_model_script_ok_partial, C14_model_case_ok_strict_partial): the model\'s own record of '
+        'a whole script (dumps of all live models and parameter_names after every step) agrees with itself and passes every clause of ok_steps - edited '
+        'model as stated, all other live models unchanged, copy / save-load equal to the source, parameter_names - PARTIAL in that "every dump is '
+        'consistent" (acyclic_b, nodup_params along the script) is a decidable hypothesis of the theorem, not derived.')
